@@ -161,6 +161,20 @@ SEEDS.update({
 })
 
 
+SEEDS.update({
+ 'C04d': ('_refresh_task_state re-reads the join with load_task_execution (stale identity-map object) instead of refresh under the named lock',
+          'two refresh jobs of one join with overlapping transactions: the second starts the join between the unlocked read and the lock of the first'),
+ 'C14d': ('_parse_def_from_wb: comment-looking lines are taken over without dedenting',
+          'a workbook member with a block scalar containing a line that starts with #'),
+ 'C17d': ('advance_cron_trigger clamps the croniter result to now instead of its start time',
+          'a patterned trigger evaluated at least one period late, then one more processing pass'),
+ 'C18d': ('get_superfluous_executions: LIMIT (limit or surplus) over ascending order instead of OFFSET max_finished',
+          'max_finished_executions with a batch size that does not divide the surplus'),
+ 'C19d': ('_denied_networks became a generator: exhausted after the first resolved address',
+          'a host name resolving to several addresses, a denied one not first'),
+})
+
+
 def main():
     for sid, (change, needs) in SEEDS.items():
         d = os.path.join(ROOT, 'seeded', sid)
